@@ -4,7 +4,7 @@
 P="$1"; ID="$2"; TIER="${3:-quick}"
 cd /verif || exit 2
 if [ -n "$(git -C /repo status --porcelain --untracked-files=no)" ]; then echo "/repo is not clean"; exit 2; fi
-git -C /repo apply "$P" || { echo "patch does not apply"; exit 2; }
+git -C /repo apply "$P" 2>/dev/null || git -C /repo apply -3 "$P" || { echo "patch does not apply"; git -C /repo checkout -- . ; exit 2; }; git -C /repo reset -q
 before=$(ls replays/$ID 2>/dev/null | sort)
 s=$(date +%s)
 timeout ${SEED_TIMEOUT:-1500} ./run.sh "$ID" "$TIER" > /tmp/seedtest.$ID.log 2>&1; rc=$?
